@@ -100,7 +100,8 @@ def samples_for(name, kinds, d):
     if name == "module_raw_line":
         return [["root", "pub type X = u8;"], ["root::outer", "// c"]]
     if name == "field_attribute":
-        return [["Foo", "a", "#[allow(dead_code)]"], ["Bar", "i", "#[doc(hidden)]"]]
+        return [["Foo", "a", "allow(dead_code)"], ["Bar", "i", "doc(hidden)"], ["Foo", "f", "doc = \"hello = world\""],
+                ["Foo", "p", "cfg(feature = \"x\")"], ["WithAnon", "w", "deprecated = \"a=b=c\""]]
     if ks == ["str", "str"]:
         return [["a", "b"]]
     return None
